@@ -841,6 +841,7 @@ def watch_history(ctx, res, cp, prop, h, length=5, stack=False, ext_sources=Fals
         hist[4 % length] = "call f\nhalt\nf rets\n"
     p = subprocess.Popen([exe, "watch", "w.asm"] + fl, cwd=d, stdin=subprocess.DEVNULL, stdout=log,
                          stderr=subprocess.STDOUT, env=env)
+    ignored_steps = set()
     try:
         time.sleep(1.0)
         segments = []
@@ -877,6 +878,20 @@ def watch_history(ctx, res, cp, prop, h, length=5, stack=False, ext_sources=Fals
                     break
                 last = size
             out = open(logpath, "rb").read()[before:].decode("utf-8", "replace")
+            if k in old_mtime_steps and "Re-checking" not in out:
+                # no re-check for a file moved into place? the same delivery twice more (a lost event is possible
+                # once; three times in a row it is the watcher that ignores the change)
+                for _again in range(2):
+                    tmp = os.path.join(side, "restored.asm")
+                    _write(tmp, src)
+                    os.utime(tmp, (946684800, 946684800))
+                    os.replace(tmp, path)
+                    time.sleep(4)
+                    out = open(logpath, "rb").read()[before:].decode("utf-8", "replace")
+                    if "Re-checking" in out:
+                        break
+                if "Re-checking" not in out:
+                    ignored_steps.add(k)
             segments.append(out)
         alive = p.poll() is None
         died_rc = p.returncode
@@ -887,6 +902,7 @@ def watch_history(ctx, res, cp, prop, h, length=5, stack=False, ext_sources=Fals
         except subprocess.TimeoutExpired:
             p.kill()
         log.close()
+    shown_ok = None   # the verdict of the latest re-check seen so far
     for k, (src, seg) in enumerate(zip(hist, segments)):
         res.evaluations += 1
         res.cls("watch_recheck")
@@ -898,6 +914,13 @@ def watch_history(ctx, res, cp, prop, h, length=5, stack=False, ext_sources=Fals
         fresh_ok = fresh.rc == 0
         checks = [s for s in CLEAR.split(seg) if "Re-checking" in s]
         detail = {"history": hist[:k + 1], "watch_output": seg[-800:], "fresh_check": fresh.brief()}
+        if not checks and k in ignored_steps and shown_ok is not None and shown_ok != fresh_ok:
+            # the new text was moved into place three times and never looked at: what `watch` shows is the
+            # verdict on a text that is gone
+            res.violate("%s/watch-ignores-a-change" % prop,
+                        "version #%d was moved into place (three times) without any re-check; `lace watch` still shows %s, a fresh `lace check` of the file reports %s"
+                        % (k + 1, "success" if shown_ok else "an error", "success" if fresh_ok else "an error"), detail)
+            continue
         if not checks:
             res.inconclusive["watch produced no re-check for a rewrite"] = res.inconclusive.get("watch produced no re-check for a rewrite", 0) + 1
             continue
@@ -907,6 +930,7 @@ def watch_history(ctx, res, cp, prop, h, length=5, stack=False, ext_sources=Fals
         if watch_ok == watch_err:
             res.inconclusive["watch output not understood"] = 1
             continue
+        shown_ok = watch_ok
         if watch_ok != fresh_ok:
             res.violate("%s/watch-differs-from-fresh-check" % prop,
                         "re-check #%d of `lace watch` reports %s, a fresh `lace check` of the same text reports %s"
